@@ -43,13 +43,15 @@ theorem finished_view (s : S) (hp : s.hasParser = true) (hc : s.cstate = .waitin
     rw [lostEnd_done _ _ hD] at h2
     exact ⟨s', h1, h2, h3⟩
   · have hE : finished s =
-        disconnectParser { s with pstate := .done, cstate := .quiescent, paused := false, quiet := s.quiet + 1 }
+        disconnectParser { s with pstate := .done, cstate := .quiescent, paused := false, quiet := s.quiet + 1,
+                                  disconnecting := s.disconnecting || s.qRaises }
           .connectionDone := by
       simp only [Bool.or_eq_true, not_or, Bool.not_eq_true, Bool.not_eq_false'] at hg
       simp [finished, finishResponse, hc, hp, hg.1, hg.2]
     rw [hE]
     obtain ⟨s', h1, h2, h3⟩ := disconnect_view
-      { s with pstate := .done, cstate := .quiescent, paused := false, quiet := s.quiet + 1 }
+      { s with pstate := .done, cstate := .quiescent, paused := false, quiet := s.quiet + 1,
+               disconnecting := s.disconnecting || s.qRaises }
       .connectionDone hp (decDone_ne _ hD) hrs hok (Or.inr ⟨rfl, hD⟩)
     rw [lostEnd_done _ _ hD] at h2
     exact ⟨s', h1, h2, h3⟩
